@@ -193,6 +193,11 @@ pub enum ContentModel<'a> {
     Str(&'a str),
     AnyScalars(&'a [Any]),
     Json(&'a [&'a str]),
+    // length-1 kinds (never cut; used by the whole-item encoding harnesses, C09/R5)
+    Binary(&'a [u8]),
+    Embed(&'a Any),
+    Format(&'a str, &'a Any),
+    Type(u8, Option<&'a str>),
 }
 
 /// UTF-16 slice `start..=end` (in code units) of `s`; a cut inside a surrogate pair keeps the
@@ -280,6 +285,18 @@ pub fn model_encode_slice(
                     rec.write_string(v[i]);
                 }
                 i += 1;
+            }
+        }
+        ContentModel::Binary(b) => rec.write_buf(b),
+        ContentModel::Embed(a) => rec.write_json(a),
+        ContentModel::Format(k, v) => {
+            rec.write_key(k);
+            rec.write_json(v);
+        }
+        ContentModel::Type(kind, name) => {
+            rec.write_type_ref(*kind);
+            if let Some(name) = name {
+                rec.write_key(name);
             }
         }
     }
@@ -372,5 +389,67 @@ mod tests {
         }
         println!("model_matches_real_splice: {} cuts validated", n);
         assert!(n > 500);
+    }
+
+    /// Grounding of the block-format model used by C09/R5: what `Item::encode` writes with the
+    /// real `EncoderV1` / `EncoderV2` is read back by the real `Update::decode_block` as the same
+    /// item, on every shape and every content kind used by the harnesses (concrete values).
+    #[test]
+    fn item_encode_decodes_back_v1_v2() {
+        use yrs::updates::decoder::{DecoderV1, DecoderV2};
+        use yrs::updates::encoder::{EncoderV1, EncoderV2};
+        use yrs::encoding::read::Cursor;
+        let contents: Vec<Box<dyn Fn() -> ItemContent>> = vec![
+            Box::new(|| ItemContent::Deleted(5)),
+            Box::new(|| ItemContent::String("a\u{1d11e}\u{e9}".into())),
+            Box::new(|| ItemContent::Any(vec![Any::BigInt(-7), Any::Bool(true), Any::Null])),
+            Box::new(|| ItemContent::JSON(vec!["1".into(), "[2]".into()])),
+            Box::new(|| ItemContent::Embed(Any::Number(9.5))),
+            Box::new(|| ItemContent::Format(Arc::from("b"), Box::new(Any::Bool(true)))),
+            Box::new(|| ItemContent::Type(yrs::branch::Branch::new(yrs::types::TypeRef::Array))),
+            Box::new(|| ItemContent::Type(yrs::branch::Branch::new(yrs::types::TypeRef::XmlElement(Arc::from("p"))))),
+        ];
+        let mut n = 0;
+        for shape in SHAPES.iter().copied() {
+            for mk in contents.iter() {
+                let ids = ids(5);
+                let it = build_item(shape, &ids, mk());
+                // v1
+                let mut e = EncoderV1::new();
+                it.encode(&mut e);
+                let bytes = e.to_vec();
+                let mut d = DecoderV1::from(bytes.as_slice());
+                let back = hook::decode_block(ids.id, &mut d).unwrap().unwrap().into_item().unwrap();
+                check_same(&it, &back, shape);
+                // v2
+                let mut e = EncoderV2::new();
+                it.encode(&mut e);
+                let bytes = e.to_vec();
+                let mut d = DecoderV2::new(Cursor::new(bytes.as_slice())).unwrap();
+                let back = hook::decode_block(ids.id, &mut d).unwrap().unwrap().into_item().unwrap();
+                check_same(&it, &back, shape);
+                n += 2;
+                std::mem::forget((it, back));
+            }
+        }
+        println!("item_encode_decodes_back_v1_v2: {} round-trips validated", n);
+    }
+
+    fn check_same(a: &ItemBox, b: &ItemBox, shape: Shape) {
+        assert_eq!(a.id(), b.id());
+        assert_eq!(a.len(), b.len());
+        assert_eq!(a.origin(), b.origin());
+        assert_eq!(a.right_origin(), b.right_origin());
+        if shape.origin || shape.right_origin {
+            // parent info is omitted when an origin identifies the neighbourhood
+            assert!(b.parent() == Parent::Unknown && b.parent_sub().is_none());
+        } else {
+            assert!(a.parent() == b.parent());
+            assert_eq!(a.parent_sub(), b.parent_sub());
+        }
+        match (a.content(), b.content()) {
+            (ItemContent::Type(x), ItemContent::Type(y)) => assert!(x.type_ref() == y.type_ref()),
+            (x, y) => assert!(x == y),
+        }
     }
 }
